@@ -59,6 +59,9 @@ func (p Password) Match(pw string) (bool, error) {
 		if err != nil {
 			return false, err
 		}
+		if len(key) == 0 {
+			return false, errors.New("empty key")
+		}
 		salt, err := hex.DecodeString(p.Salt)
 		if err != nil {
 			return false, err
